@@ -35,6 +35,47 @@ theorem unresolved_objects_reported (root : Obj) (ch : Forest) (hr : root.resolv
   rw [run_omit _ hv]
   exact mem_commonDiags_tree _ _ d hd
 
+/-! ### (b') "every error is still reported", read against generate mode (finding F21) -/
+
+/-- full reading: whatever generate mode reports for a document, preview (omit) mode reports as well -/
+def every_error_reported_full_statement : Prop :=
+  ∀ doc : Forest, ∀ d ∈ (run .generate doc).diags, d ∈ (run .omit doc).diags
+
+/-- `QWidget { text: srcSpin.value }`-like witness: a dynamic binding whose return type does not fit the property.
+    Only `UiSupportCode::build` runs `verify_code_return_type` on code that is not an evaluated constant, and omit mode
+    never builds the support code. -/
+def dynamicMismatchDoc : Forest :=
+  .cons { oid := 0, isWidget := true,
+          entries := [.leaf { id := 10, name := "text".toList, const := none, retTypeOk := false }] } .nil .nil
+
+/-- **F21**: the ill-typed dynamic binding is an error in generate mode and silently accepted in omit mode -/
+theorem every_error_reported_refuted : ¬ every_error_reported_full_statement := by
+  intro h
+  have := h dynamicMismatchDoc ⟨10, .cxxRetType⟩ (by decide)
+  revert this
+  decide
+
+/-- what does hold: the only errors preview mode does not report are those of the C++ pass (return type of code that
+    is not an evaluated constant, missing READ / WRITE of its target, nested dynamic maps); every error of the object
+    tree, of the code maps, of the constant pass and of the left-over attached check is reported (`errors_not_lost`) -/
+theorem every_error_reported_partial (doc : Forest) :
+    ∀ d ∈ (run .generate doc).diags, d ∈ (run .omit doc).diags ∨ d.kind = .cxxRetType ∨
+      d.kind = .cxxNotReadable ∨ d.kind = .cxxNotWritable ∨ d.kind = .cxxNested := by
+  intro d hd
+  cases h : valid doc
+  · rw [(run_invalid doc h .generate).1] at hd
+    exact .inl hd
+  · rw [run_generate doc h] at hd
+    rw [run_omit doc h]
+    simp only [List.mem_append] at hd
+    rcases hd with hd | hd
+    · exact .inl hd
+    · exact .inr (cxxAll_diags _ d hd)
+
+example : (run .generate dynamicMismatchDoc).diags = [⟨10, .cxxRetType⟩] ∧ (run .omit dynamicMismatchDoc).diags = [] ∧
+    (run .omit dynamicMismatchDoc).accepted = true := by
+  and_intros <;> decide
+
 /-! ### (c) planted faults, as edits of the objects with id `n` -/
 
 /-- a binding rejected while the code map is built: unknown property, type error, unsupported expression -/
@@ -112,8 +153,8 @@ private def sepDoc : Forest :=
 
 private def failingText : Leaf := { id := 11, name := "text".toList, const := some .fail }
 
-/-- **The unrestricted statement is false**: a failing constant planted in a separator action changes the fate
-    of the action's *other* binding (`separator`: embedded → dropped). -/
+/-- **The unrestricted statement is false** (finding F20): a failing constant planted in a separator action changes
+    the fate of the action's *other* binding (`separator`: embedded → dropped): the static separator becomes an action. -/
 theorem fault_local_full_refuted : ¬ fault_local_full_statement := by
   intro h
   have := h 1 failingText sepDoc rfl rfl
@@ -144,7 +185,7 @@ open QV.Model.Layout in
 /-- Cells are computed from the attached values by a cursor that runs over the siblings.  Losing child `a`'s
     whole attached map — what a duplicated `QLayout.row` does (`setAttFault`) — moves the *sibling* `b` from cell
     (3,1) to (0,1).  This refutes the strict reading "identical outside the faulted object" for the
-    duplicate-attached fault; the real-code replay is in corpus/C20. -/
+    duplicate-attached fault (finding F19); the real-code replay is in corpus/C20. -/
 theorem duplicate_attached_shifts_sibling_witness :
     let a3 : Attached := { row := some 3 }
     let a0 : Attached := {}
